@@ -83,7 +83,7 @@ def gen_data_spec(rng, n_surveys=1, unit=None, n_epochs=None, layout=None, t_ref
         pool = [["apogee", "lamost", "weave", "boss"], [3, 1, 2, 0], ["b", "a", "d", "c"], [10, 2, 33, 4]][rng.integers(0, 4)]
         keys = [pool[i] for i in rng.permutation(len(pool))[:n_surveys]]
     return dict(unit=surveys[0]["unit"], form=form, keys=keys, surveys=surveys, t_ref=t_ref, layout=layout,
-                t_ref_kind=t_ref_kind, err_scale_kms=err_scale, signal=signal)
+                t_ref_kind=t_ref_kind, err_scale_kms=err_scale, signal=signal, base=base)
 
 
 def build_data(dspec):
